@@ -18,6 +18,7 @@ import (
 	"github.com/KevoDB/kevo/pkg/memtable"
 	"pgregory.net/rapid"
 
+	"verif/internal/ev"
 	"verif/internal/gen"
 )
 
@@ -35,6 +36,8 @@ type CCase struct {
 	Keys  [][]byte `json:"keys"`
 	W     []Op     `json:"w"`     // writer history: put / del / imm
 	Burst int      `json:"burst"` // the writer yields after every Burst steps (0 = never)
+	// Prefill: this many leading steps of W are applied before the readers start
+	Prefill int `json:"prefill"`
 	R     [][]RAct `json:"r"`     // one action pattern per reader
 }
 
@@ -43,70 +46,91 @@ func genCCase(t *rapid.T) CCase {
 	nk := len(c.Keys)
 	ntg := len(targets(c.Keys))
 	hot := []int{rapid.IntRange(0, nk-1).Draw(t, "hot0")}
-	n := rapid.IntRange(150, 700).Draw(t, "nw")
-	immAt := -1
-	if rapid.IntRange(0, 2).Draw(t, "hasimm") == 0 {
-		immAt = rapid.IntRange(n/3, n-1).Draw(t, "immat")
-	}
-	st := &seqState{}
-	// sequence-number regime of this history: the engine's (monotone with
-	// batches sharing a number) or arbitrary
+	// sequence-number regime of this history: the engine's (monotone, the
+	// entries of a batch sharing a number) or arbitrary
 	engineLike := rapid.Bool().Draw(t, "enginelike")
-	for i := 0; i < n; i++ {
-		if i == immAt {
-			c.W = append(c.W, Op{Op: "imm"})
-			continue
+	wstep := rapid.Custom(func(t *rapid.T) gOp {
+		if !engineLike {
+			return drawWrite(t, nk, hot)
 		}
-		if engineLike {
-			o := Op{Op: "put", K: rapid.IntRange(0, nk-1).Draw(t, "k"), VL: rapid.IntRange(4, 12).Draw(t, "vl")}
-			switch rapid.IntRange(0, 5).Draw(t, "kind") {
-			case 0:
-				o = Op{Op: "del", K: o.K}
-			case 1:
-				// next entry of the same batch: same number
-				o.Seq = st.last
-				c.W = append(c.W, o)
+		g := gOp{Op: Op{Op: "put", K: rapid.IntRange(0, nk-1).Draw(t, "k"), VL: rapid.IntRange(4, 12).Draw(t, "vl")}, Mode: "next"}
+		switch rapid.IntRange(0, 5).Draw(t, "kind") {
+		case 4:
+			g.Op = Op{Op: "del", K: g.Op.K}
+		case 5:
+			g.Mode = "same" // next entry of the same batch
+		}
+		return g
+	})
+	c.W = resolveOps(&seqState{}, rapid.SliceOfN(wstep, 150, 700).Draw(t, "w"))
+	// one case in three freezes the table somewhere in the last two thirds of
+	// the history; the writer keeps writing (those writes must be ignored)
+	if rapid.IntRange(0, 2).Draw(t, "hasimm") == 2 {
+		at := len(c.W) * rapid.IntRange(33, 98).Draw(t, "immpct") / 100
+		c.W = append(c.W[:at], append([]Op{{Op: "imm"}}, c.W[at:]...)...)
+	}
+	if rapid.Bool().Draw(t, "prefilled") {
+		c.Prefill = len(c.W) * rapid.IntRange(1, 30).Draw(t, "prefillpct") / 100
+	}
+	if !flagOn("conc_insert_behind_existing") {
+		// Known finding (Iterator.Seek re-reads the level-0 link): exclude by
+		// construction every insertion that lands BEHIND existing nodes while
+		// readers run, i.e. first insertions of a key and sequence numbers
+		// lower than an existing version of the key.
+		pre := make([]Op, 0, nk)
+		for k := 0; k < nk; k++ {
+			pre = append(pre, Op{Op: "put", K: k, VL: 4})
+		}
+		c.W = append(pre, c.W...)
+		if c.Prefill < nk {
+			c.Prefill = nk
+		} else {
+			c.Prefill += nk
+		}
+		maxSeq := map[int]uint64{}
+		changed := false
+		for i := range c.W {
+			o := &c.W[i]
+			if o.Op == "imm" {
 				continue
 			}
-			st.last++
-			o.Seq = st.last
-			c.W = append(c.W, o)
-			continue
+			if o.Seq < maxSeq[o.K] {
+				o.Seq = maxSeq[o.K]
+				changed = true
+			}
+			maxSeq[o.K] = o.Seq
 		}
-		c.W = append(c.W, drawWrite(t, nk, st, hot))
+		if changed {
+			ev.R().Exclude("conc_insert_behind_existing")
+		}
 	}
 	c.Burst = rapid.SampledFrom([]int{0, 0, 1, 3, 16, 64}).Draw(t, "burst")
-	nr := rapid.IntRange(1, 8).Draw(t, "readers")
-	for r := 0; r < nr; r++ {
-		m := rapid.IntRange(1, 5).Draw(t, "nacts")
-		var pat []RAct
-		for j := 0; j < m; j++ {
-			a := RAct{Y: rapid.SampledFrom([]int{0, 0, 0, 1, 3}).Draw(t, "y")}
-			switch rapid.SampledFrom([]string{"get", "get", "contains", "seek", "seek", "seek", "seek", "full", "iter", "misc"}).Draw(t, "ra") {
-			case "get":
-				a.A, a.K = "get", rapid.IntRange(0, nk-1).Draw(t, "k")
-			case "contains":
-				a.A, a.K = "contains", rapid.IntRange(0, nk-1).Draw(t, "k")
-			case "seek":
-				// short scans after a Seek: the cheap, frequent probe
-				a.A = "iter"
-				a.Ad = rapid.IntRange(0, 3).Draw(t, "adapter") == 0
-				a.Acts = []Act{{T: rapid.IntRange(0, ntg-1).Draw(t, "target"), N: rapid.IntRange(1, 4).Draw(t, "n")}}
-			case "full":
-				a.A = "iter"
-				a.Ad = rapid.IntRange(0, 3).Draw(t, "adapter") == 0
-				a.Acts = []Act{{T: -1, N: -1}}
-			case "iter":
-				a.A = "iter"
-				a.Ad = rapid.Bool().Draw(t, "adapter")
-				a.Acts = drawActs(t, ntg, false)
-			default:
-				a.A = "misc"
-			}
-			pat = append(pat, a)
+	ract := rapid.Custom(func(t *rapid.T) RAct {
+		a := RAct{Y: rapid.SampledFrom([]int{0, 0, 0, 1, 3}).Draw(t, "y")}
+		switch rapid.SampledFrom([]string{"seek", "seek", "seek", "seek", "get", "get", "contains", "full", "iter", "misc"}).Draw(t, "ra") {
+		case "get":
+			a.A, a.K = "get", rapid.IntRange(0, nk-1).Draw(t, "k")
+		case "contains":
+			a.A, a.K = "contains", rapid.IntRange(0, nk-1).Draw(t, "k")
+		case "seek":
+			// short scans after a Seek: the cheap, frequent probe
+			a.A = "iter"
+			a.Ad = rapid.IntRange(0, 3).Draw(t, "adapter") == 3
+			a.Acts = []Act{{T: rapid.IntRange(0, ntg-1).Draw(t, "target"), N: rapid.IntRange(1, 4).Draw(t, "n")}}
+		case "full":
+			a.A = "iter"
+			a.Ad = rapid.IntRange(0, 3).Draw(t, "adapter") == 3
+			a.Acts = []Act{{T: -1, N: -1}}
+		case "iter":
+			a.A = "iter"
+			a.Ad = rapid.Bool().Draw(t, "adapter")
+			a.Acts = drawActs(t, ntg, false)
+		default:
+			a.A = "misc"
 		}
-		c.R = append(c.R, pat)
-	}
+		return a
+	})
+	c.R = rapid.SliceOfN(rapid.SliceOfN(ract, 1, 5), 1, 8).Draw(t, "readers")
 	return c
 }
 
@@ -203,7 +227,7 @@ func concView(c *CCase) (v *tview, immStep int) {
 
 func validCCase(c *CCase) bool {
 	s := SCase{Keys: c.Keys, Ops: c.W}
-	if !validSCase(&s) || len(c.R) == 0 || len(c.R) > 64 {
+	if !validSCase(&s) || len(c.R) == 0 || len(c.R) > 64 || c.Prefill < 0 || c.Prefill > len(c.W) {
 		return false
 	}
 	for _, o := range c.W {
@@ -251,25 +275,31 @@ func runConc(c *CCase) (*CFail, cstats) {
 	overl := make([]int, len(c.R))
 	nact := make([]int, len(c.R))
 
+	apply := func(i int) {
+		o := &c.W[i]
+		switch o.Op {
+		case "imm":
+			mt.SetImmutable()
+		case "del":
+			mt.Delete(c.Keys[o.K], o.Seq)
+		default:
+			mt.Put(c.Keys[o.K], valueBytes(i+1, o.VL), o.Seq)
+		}
+		counter.Store(int64(i + 1))
+	}
+	for i := 0; i < c.Prefill; i++ {
+		apply(i)
+	}
 	wg.Add(1)
 	go func() { // the single writer
 		defer wg.Done()
 		defer done.Store(true)
 		<-start
-		for i := range c.W {
+		for i := c.Prefill; i < len(c.W); i++ {
 			if stop.Load() {
 				return
 			}
-			o := &c.W[i]
-			switch o.Op {
-			case "imm":
-				mt.SetImmutable()
-			case "del":
-				mt.Delete(c.Keys[o.K], o.Seq)
-			default:
-				mt.Put(c.Keys[o.K], valueBytes(i+1, o.VL), o.Seq)
-			}
-			counter.Store(int64(i + 1))
+			apply(i)
 			if c.Burst > 0 && (i+1)%c.Burst == 0 {
 				runtime.Gosched()
 			}
